@@ -152,6 +152,23 @@ class Oracle:
         return hits[0] if hits else None
 
     # ---- loading ----------------------------------------------------------------------------------
+    def unshare(self, node, above=()):
+        """an alias stands for a copy of the anchored node: the node graph as a tree"""
+        yaml = self.yaml
+        if any(node is a for a in above):
+            raise Reject('a recursive alias')
+        above = above + (node,)
+        if isinstance(node, yaml.ScalarNode):
+            return yaml.ScalarNode(node.tag, node.value, node.start_mark, node.end_mark, style=node.style)
+        if isinstance(node, yaml.SequenceNode):
+            return yaml.SequenceNode(node.tag, [self.unshare(x, above) for x in node.value],
+                                     node.start_mark, node.end_mark)
+        return yaml.MappingNode(node.tag, [(self.unshare(k, above), self.unshare(v, above))
+                                           for k, v in node.value], node.start_mark, node.end_mark)
+
+    def load_document(self, node, t):
+        return self.load(self.unshare(node), t)
+
     def load(self, node, t):
         yaml = self.yaml
         for n in self.walk(node):
